@@ -21,7 +21,11 @@ def main():
     env = dict(os.environ, PYTHONPATH=f"{wt}/src", PYTHONHASHSEED="0")
     out = {"name": name, "seed_dir": seed, "repo_head": sh("git -C /repo rev-parse --short HEAD").stdout.strip()}
     try:
-        d0 = sh(f"/venv/bin/python {seed}/demo.py", env=env, cwd=wt, timeout=600)
+        # run the demonstration from inside the scratch tree (some demos locate src/ relative to their own path)
+        local = f"{wt}/seeded/{os.path.basename(seed.rstrip('/'))}"
+        os.makedirs(os.path.dirname(local), exist_ok=True)
+        shutil.copytree(seed, local, dirs_exist_ok=True)
+        d0 = sh(f"/venv/bin/python {local}/demo.py", env=env, cwd=wt, timeout=600)
         out["demo_without"] = d0.returncode
         a = sh(f"git -C {wt} apply {seed}/patch.diff")
         if a.returncode != 0:
@@ -30,7 +34,7 @@ def main():
         if not out["applies"]:
             out["apply_err"] = a.stderr[-400:]
             print(json.dumps(out, indent=1)); return 1
-        d1 = sh(f"/venv/bin/python {seed}/demo.py", env=env, cwd=wt, timeout=600)
+        d1 = sh(f"/venv/bin/python {local}/demo.py", env=env, cwd=wt, timeout=600)
         out["demo_with"] = d1.returncode
         out["demo_tail"] = (d1.stdout + d1.stderr)[-300:]
         t = sh("/venv/bin/python -m pytest -q -p no:cacheprovider --timeout=900 tests 2>&1 | tail -4", env=env, cwd=wt, timeout=1800)
